@@ -82,6 +82,14 @@ theorem pyRange_spec (s e : Int) (k : Nat) :
     (pyRange s e k).Pairwise (· < ·) :=
   ⟨mem_pyRange s e k, pyRange_ascending s e k⟩
 
+/-- the wrappers' ranges: `iterShape*` visits exactly `0 <= c < shape`, `iterActiveShape*`
+    exactly the active range (declared, or `(0, shape)` with an unknown shape estimated from the
+    last coordinate). -/
+theorem wrapper_ranges (cfg : Cfg) (f : Fib Int π) (c : Int) :
+    (c ∈ wrapCoords .shape cfg f ↔ 0 ≤ c ∧ c < getShape cfg f) ∧
+    (c ∈ wrapCoords .active cfg f ↔ (getActive cfg f).1 ≤ c ∧ c < (getActive cfg f).2) :=
+  ⟨mem_pyRange_one _ _ c, mem_pyRange_one _ _ c⟩
+
 /-- **reference variants insert exactly the visited absent coordinates**: after
     `iterRangeShapeRef` over the coordinates `cs` the fiber is sorted, holds every original
     element unchanged, holds the default at every visited coordinate that was absent, and nothing
